@@ -305,7 +305,7 @@ def famcmp_with_guard(node, g):
     return _with_guard(node, g)
 
 
-def run_row_images(sess: Session, prop: str):
+def run_row_images(sess: Session, prop: str, only=None):
     world = World()
     sess.assume('A-SQLITE', 'A-ENGINE', 'A-BATCH')
     res, outs = explore_checked(world)
@@ -313,6 +313,8 @@ def run_row_images(sess: Session, prop: str):
     for out in outs:
         for ev in out.effects:
             if ev.kind != 'contract':
+                continue
+            if only is not None and ev.extra['fn'] not in only:
                 continue
             n += 1
             try:
